@@ -17,7 +17,56 @@ import (
 // from fresh matrices. Oracle: the same call with dst and b over private copies
 // (bit-equal: same arithmetic), plus the residual of the system as definition.
 
-// Fresh system matrices (deterministic in n).
+// Fresh system matrices (deterministic in n and sysCond).
+
+// sysCond selects the conditioning of the fresh system matrices built below:
+// 0 well conditioned; 1 ill conditioned (index 1 decoupled with diagonal 1e-18:
+// the factorization succeeds, the condition estimate exceeds
+// mat.ConditionTolerance, so the solve is performed AND a finite Condition error
+// is returned); 2 exactly singular (that diagonal is 0). It is set by the
+// templates around each call, identically for the aliased and the unaliased run.
+var sysCond int
+
+const (
+	condWell = iota
+	condIll
+	condSingular
+	nCond
+)
+
+func withCond(cond int, f func() error) error {
+	old := sysCond
+	sysCond = cond
+	defer func() { sysCond = old }()
+	return f()
+}
+
+// pivotValue returns the replacement diagonal and whether to perturb at all.
+func pivotValue(n int) (float64, bool) {
+	if n < 2 {
+		return 0, false
+	}
+	switch sysCond {
+	case condIll:
+		return 1e-18, true
+	case condSingular:
+		return 0, true
+	}
+	return 0, false
+}
+
+// sysDom is the general square system matrix.
+func sysDom(n int) *mat.Dense {
+	d := fDom(n, n, 6)
+	if v, ok := pivotValue(n); ok {
+		for k := 0; k < n; k++ {
+			d.Set(1, k, 0)
+			d.Set(k, 1, 0)
+		}
+		d.Set(1, 1, v)
+	}
+	return d
+}
 
 func aSPD(n int) *mat.SymDense {
 	s := mat.NewSymDense(n, nil)
@@ -29,6 +78,12 @@ func aSPD(n int) *mat.SymDense {
 			}
 			s.SetSym(i, j, v)
 		}
+	}
+	if v, ok := pivotValue(n); ok {
+		for k := 0; k < n; k++ {
+			s.SetSym(1, k, 0)
+		}
+		s.SetSym(1, 1, v)
 	}
 	return s
 }
@@ -44,6 +99,13 @@ func aSymBand(n int) *mat.SymBandDense {
 		if i+1 < n {
 			s.SetSymBand(i, i+1, float64(i%3-1))
 		}
+	}
+	if v, ok := pivotValue(n); ok {
+		s.SetSymBand(0, 1, 0)
+		if n > 2 {
+			s.SetSymBand(1, 2, 0)
+		}
+		s.SetSymBand(1, 1, v)
 	}
 	return s
 }
@@ -80,6 +142,9 @@ func aTriBand(n int, kind mat.TriKind) *mat.TriBandDense {
 			}
 		}
 	}
+	if v, ok := pivotValue(n); ok {
+		t.SetTriBand(1, 1, v)
+	}
 	return t
 }
 
@@ -96,12 +161,19 @@ func aTridiag(n int) *mat.Tridiag {
 			du[i] = float64((i+1)%3 - 1)
 		}
 	}
+	if v, ok := pivotValue(n); ok {
+		d[1] = v
+		dl[0], du[0] = 0, 0
+		if n > 2 {
+			dl[1], du[1] = 0, 0
+		}
+	}
 	return mat.NewTridiag(n, dl, d, du)
 }
 
 func aTri(n int, kind mat.TriKind) *mat.TriDense {
 	t := mat.NewTriDense(n, kind, nil)
-	t.Copy(fDom(n, n, 6))
+	t.Copy(sysDom(n))
 	return t
 }
 
@@ -127,16 +199,34 @@ func residual(a mat.Matrix, trans bool, b mat.Matrix, rr, rc int, x func(i, j in
 	return ""
 }
 
-func mkLU(n int) *mat.LU              { var f mat.LU; f.Factorize(fDom(n, n, 6)); return &f }
-func mkChol(n int) *mat.Cholesky      { var f mat.Cholesky; f.Factorize(aSPD(n)); return &f }
-func mkQR(n int) *mat.QR              { var f mat.QR; f.Factorize(fDom(n, n, 6)); return &f }
-func mkLQ(n int) *mat.LQ              { var f mat.LQ; f.Factorize(fDom(n, n, 6)); return &f }
-func mkSVD(n int) *mat.SVD            { var f mat.SVD; f.Factorize(fDom(n, n, 6), mat.SVDFull); return &f }
-func mkEig(n int) *mat.EigenSym       { var f mat.EigenSym; f.Factorize(aSPD(n), true); return &f }
-func mkBChol(n int) *mat.BandCholesky { var f mat.BandCholesky; f.Factorize(aSymBand(n)); return &f }
+func mkLU(n int) *mat.LU { var f mat.LU; f.Factorize(fDom(n, n, 6)); return &f }
+func mkChol(n int) *mat.Cholesky {
+	var f mat.Cholesky
+	if !f.Factorize(aSPD(n)) {
+		return nil
+	}
+	return &f
+}
+func mkQR(n int) *mat.QR        { var f mat.QR; f.Factorize(sysDom(n)); return &f }
+func mkLQ(n int) *mat.LQ        { var f mat.LQ; f.Factorize(sysDom(n)); return &f }
+func mkSVD(n int) *mat.SVD      { var f mat.SVD; f.Factorize(sysDom(n), mat.SVDFull); return &f }
+func mkEig(n int) *mat.EigenSym { var f mat.EigenSym; f.Factorize(aSPD(n), true); return &f }
+func mkBChol(n int) *mat.BandCholesky {
+	var f mat.BandCholesky
+	if !f.Factorize(aSymBand(n)) {
+		return nil
+	}
+	return &f
+}
 func mkPChol(n int) *mat.PivotedCholesky {
 	var f mat.PivotedCholesky
-	f.Factorize(aSPD(n), -1)
+	tol := -1.0
+	if sysCond != condWell {
+		tol = 0 // do not stop at the tiny pivot
+	}
+	if !f.Factorize(aSPD(n), tol) {
+		return nil
+	}
 	return &f
 }
 
@@ -149,9 +239,25 @@ type solver struct {
 	transA func(trans bool) bool // whether the system solved is Aᵀ X = B
 }
 
+// fv of the solver templates: trans = fv&1 (methods with a trans flag),
+// conditioning = the remaining part.
+func (s *solver) nf() int {
+	if s.hasTr {
+		return 2 * nCond
+	}
+	return nCond
+}
+
+func (s *solver) decode(fv int) (trans bool, cond int) {
+	if s.hasTr {
+		return fv&1 == 1, fv >> 1
+	}
+	return false, fv
+}
+
 func solvers() []solver {
 	lu, chol, pchol, bchol, qr, lq, svd := mkLU, mkChol, mkPChol, mkBChol, mkQR, mkLQ, mkSVD
-	dom := func(n int) mat.Matrix { return fDom(n, n, 6) }
+	dom := func(n int) mat.Matrix { return sysDom(n) }
 	id := func(t bool) bool { return t }
 	no := func(bool) bool { return false }
 	return []solver{
@@ -159,14 +265,50 @@ func solvers() []solver {
 			func(d *mat.Dense, n int, t bool, b mat.Matrix) error { return lu(n).SolveTo(d, t, b) },
 			func(d *mat.VecDense, n int, t bool, b mat.Vector) error { return lu(n).SolveVecTo(d, t, b) }, id},
 		{"Cholesky", false, func(n int) mat.Matrix { return aSPD(n) },
-			func(d *mat.Dense, n int, t bool, b mat.Matrix) error { return chol(n).SolveTo(d, b) },
-			func(d *mat.VecDense, n int, t bool, b mat.Vector) error { return chol(n).SolveVecTo(d, b) }, no},
+			func(d *mat.Dense, n int, t bool, b mat.Matrix) error {
+				f := chol(n)
+				if f == nil {
+					return errSkip
+				}
+				return f.SolveTo(d, b)
+			},
+			func(d *mat.VecDense, n int, t bool, b mat.Vector) error {
+				f := chol(n)
+				if f == nil {
+					return errSkip
+				}
+				return f.SolveVecTo(d, b)
+			}, no},
 		{"PivotedCholesky", false, func(n int) mat.Matrix { return aSPD(n) },
-			func(d *mat.Dense, n int, t bool, b mat.Matrix) error { return pchol(n).SolveTo(d, b) },
-			func(d *mat.VecDense, n int, t bool, b mat.Vector) error { return pchol(n).SolveVecTo(d, b) }, no},
+			func(d *mat.Dense, n int, t bool, b mat.Matrix) error {
+				f := pchol(n)
+				if f == nil {
+					return errSkip
+				}
+				return f.SolveTo(d, b)
+			},
+			func(d *mat.VecDense, n int, t bool, b mat.Vector) error {
+				f := pchol(n)
+				if f == nil {
+					return errSkip
+				}
+				return f.SolveVecTo(d, b)
+			}, no},
 		{"BandCholesky", false, func(n int) mat.Matrix { return aSymBand(n) },
-			func(d *mat.Dense, n int, t bool, b mat.Matrix) error { return bchol(n).SolveTo(d, b) },
-			func(d *mat.VecDense, n int, t bool, b mat.Vector) error { return bchol(n).SolveVecTo(d, b) }, no},
+			func(d *mat.Dense, n int, t bool, b mat.Matrix) error {
+				f := bchol(n)
+				if f == nil {
+					return errSkip
+				}
+				return f.SolveTo(d, b)
+			},
+			func(d *mat.VecDense, n int, t bool, b mat.Vector) error {
+				f := bchol(n)
+				if f == nil {
+					return errSkip
+				}
+				return f.SolveVecTo(d, b)
+			}, no},
 		{"QR", true, dom,
 			func(d *mat.Dense, n int, t bool, b mat.Matrix) error { return qr(n).SolveTo(d, t, b) },
 			func(d *mat.VecDense, n int, t bool, b mat.Vector) error { return qr(n).SolveVecTo(d, t, b) }, id},
@@ -214,18 +356,23 @@ func toDenseTemplates() []*tmpl {
 	var out []*tmpl
 	for _, sv := range solvers() {
 		sv := sv
-		nf := 1
-		if sv.hasTr {
-			nf = 2
-		}
-		out = append(out, &tmpl{recv: kDense, method: sv.name + ".SolveTo", pos: "b", xs: xsMat, nf: nf,
+		out = append(out, &tmpl{recv: kDense, method: sv.name + ".SolveTo", pos: "b", xs: xsMat, nf: sv.nf(),
+			thinFv: func(fv int) bool { _, cond := sv.decode(fv); return cond != condWell },
 			call: func(recv, x mat.Matrix, fv int) error {
 				d := recv.(*mat.Dense)
 				n, _ := d.Dims()
-				return sv.mat(d, n, fv == 1, x)
+				trans, cond := sv.decode(fv)
+				if cond != condWell && (n < 2 || sv.name == "SVD") {
+					return errSkip
+				}
+				return withCond(cond, func() error { return sv.mat(d, n, trans, x) })
 			},
 			verify: func(c *refCtx, res func(i, j int) float64) string {
-				return residual(cachedA(&sv, c.rr), sv.transA(c.fv == 1), c.x, c.rr, c.rc, res)
+				trans, cond := sv.decode(c.fv)
+				if cond != condWell {
+					return ""
+				}
+				return residual(cachedA(&sv, c.rr), sv.transA(trans), c.x, c.rr, c.rc, res)
 			}})
 	}
 	// Non-square least-squares / minimum-norm systems (differential oracle only).
@@ -288,18 +435,22 @@ func toVecTemplates() []*tmpl {
 		if sv.vec == nil {
 			continue
 		}
-		nf := 1
-		if sv.hasTr {
-			nf = 2
-		}
-		// fv: bit 0 = trans, bit 1 = b wrapped in a type without RawVector.
-		out = append(out, &tmpl{recv: kVec, method: sv.name + ".SolveVecTo", pos: "b", xs: xsVec[:1], vecArg: true, nf: nf,
+		out = append(out, &tmpl{recv: kVec, method: sv.name + ".SolveVecTo", pos: "b", xs: xsVec[:1], vecArg: true, nf: sv.nf(),
+			thinFv: func(fv int) bool { _, cond := sv.decode(fv); return cond != condWell },
 			call: func(recv, x mat.Matrix, fv int) error {
 				d := recv.(*mat.VecDense)
-				return sv.vec(d, d.Len(), fv == 1, x.(mat.Vector))
+				trans, cond := sv.decode(fv)
+				if cond != condWell && (d.Len() < 2 || sv.name == "SVD") {
+					return errSkip
+				}
+				return withCond(cond, func() error { return sv.vec(d, d.Len(), trans, x.(mat.Vector)) })
 			},
 			verify: func(c *refCtx, res func(i, j int) float64) string {
-				return residual(cachedA(&sv, c.rr), sv.transA(c.fv == 1), c.x, c.rr, 1, res)
+				trans, cond := sv.decode(c.fv)
+				if cond != condWell {
+					return ""
+				}
+				return residual(cachedA(&sv, c.rr), sv.transA(trans), c.x, c.rr, 1, res)
 			}})
 	}
 	// MulVecTo of the banded types: dst = op(A) * x.
